@@ -25,6 +25,7 @@
  */
 
 #include <stdlib.h>
+#include <limits.h>
 #include <stdint.h>
 #include <stdbool.h>
 #include <zck.h>
@@ -48,28 +49,15 @@ int compint_to_size(zckCtx *zck, size_t *val, const char *compint,
     VALIDATE_BOOL(zck);
 
     *val = 0;
-    size_t old_val = 0;
     const unsigned char *i = (unsigned char *)compint;
     int count = 0;
     bool done = false;
     while(true) {
-        size_t c = i[0];
-        if(c >= 128) {
-            c -= 128;
-            done = true;
-        }
-        /* There *must* be a more elegant way of doing c * 128**count */
-        for(int f=0; f<count; f++)
-            c *= 128;
-        *val += c;
-        (*length) = (*length) + 1;
-        count++;
-        if(done)
-            break;
-        i++;
-        /* Make sure we're not overflowing and fail if we do */
-        if(count >= MAX_COMP_SIZE || count >= max_length || *val < old_val) {
-            if(count > max_length)
+        /* *length is our position in a buffer of max_length bytes, so make
+         * sure the byte we're about to read is still inside it and that the
+         * number isn't longer than a size_t allows */
+        if(*length >= max_length || count >= MAX_COMP_SIZE) {
+            if(*length >= max_length)
                 set_fatal_error(zck, "Read past end of header");
             else
                 set_fatal_error(zck, "Number too large");
@@ -77,7 +65,27 @@ int compint_to_size(zckCtx *zck, size_t *val, const char *compint,
             *val = 0;
             return false;
         }
-        old_val = *val;
+        size_t c = i[0];
+        if(c >= 128) {
+            c -= 128;
+            done = true;
+        }
+        /* Fail if the bits of this byte don't fit into what's left of a
+         * size_t instead of silently dropping them */
+        int shift = 7 * count;
+        int bits_left = (int)(sizeof(size_t) * 8) - shift;
+        if(bits_left < 7 && (c >> bits_left) != 0) {
+            set_fatal_error(zck, "Number too large");
+            *length -= count;
+            *val = 0;
+            return false;
+        }
+        *val += c << shift;
+        (*length) = (*length) + 1;
+        count++;
+        if(done)
+            break;
+        i++;
     }
     return true;
 }
@@ -101,10 +109,10 @@ int compint_to_int(zckCtx *zck, int *val, const char *compint, size_t *length,
     size_t new = (size_t)*val;
     if(!compint_to_size(zck, &new, compint, length, max_length))
         return false;
-    *val = (int)new;
-    if(*val < 0) {
-        set_fatal_error(zck, "Overflow error: compressed int is negative");
+    if(new > INT_MAX) {
+        set_fatal_error(zck, "Overflow error: compressed int doesn't fit into an int");
         return false;
     }
+    *val = (int)new;
     return true;
 }
